@@ -63,6 +63,8 @@ def floors(tier):
         "target_checked_with_max_resource_attr": 1000 * k,
         "second_experiment_interleaved_in_same_process": 200 * k,
         "second_experiment_events": 10000 * k,
+        "schedules_reporting_every_gth_level_only": 150 * k,
+        "schedules_reporting_every_gth_level_only:cost_promotion_without_checkpointing": 10 * k,
     }
 
 
@@ -86,6 +88,17 @@ def expand(spec):
         p["rush_candidates"] = rng.choice([0, 0, 1, 2, 3])
     # a second, unrelated promotion-type experiment in the same process, its events interleaved with this one's
     p["bystander"] = rng.random() < 0.2
+    # training scripts that validate (and report) only every g-th epoch, where every rung level is a multiple of g: no rung
+    # level is skipped, but level 1 is never reported, neither in the first run nor after a restart from scratch
+    import math
+
+    lv_ = gen.ref_rung_levels(p)
+    g = 0
+    for x in lv_:
+        g = math.gcd(g, int(x))
+    # (not for PASHA: its ranking bookkeeping indexes every epoch between two rung levels and raises KeyError when none of the
+    # trials reported one of them -- noted in DESIGN 9.7, outside C04 as stated, which is about trials that report every level)
+    p["strides"] = [g] if (g > 1 and p["type"] != "pasha" and rng.random() < 0.7) else None
     p.update({k: v for k, v in spec.items() if k != "seed"})
     return p
 
@@ -380,7 +393,7 @@ def run_case(spec):
             return {}
         # cost since the last resume: with checkpointing the run started after start_level-1
         if p["checkpointing"] and run_no > 0:
-            base_level = vt_.run_start_level - 1
+            base_level = vt_.run_start_level - max(1, vt_.stride)  # the level the trial was paused at
             base = cost_fn(trial_id, base_level) if base_level >= 1 else 0.0
         else:
             base = 0.0
@@ -392,7 +405,12 @@ def run_case(spec):
         "policy": p["policy"], "seed": spec["seed"] + 2, "max_trials": p["max_trials"],
         "max_events": p["max_events"], "order": p.get("order"),
         "max_resource_attr": "epochs" if p["use_mra"] else None, "checkpointing": p["checkpointing"],
+        "strides": p.get("strides"),
     }
+    if p.get("strides"):
+        o.count("schedules_reporting_every_gth_level_only")
+        if p["type"] == "cost_promotion" and not p["checkpointing"]:
+            o.count("schedules_reporting_every_gth_level_only:cost_promotion_without_checkpointing")
     with rung_contract(o):
         vt = CfgTrackingVTuner(Port(sched), vp, curves, extra_fn=extra_fn, monitors=[mon])
         if p.get("bystander"):
